@@ -644,6 +644,22 @@ def strategy_table(ctx):
                         isinstance(dc.key, ast.Name) and dc.key.id == tgt.id and not dc.generators[0].ifs:
                     for pth in transients:
                         table.setdefault(pth, set()).update(possible(dc.value))
+                elif isinstance(it, ast.Call) and isinstance(it.func, ast.Attribute) and it.func.attr == 'items' and isinstance(literal(it.func.value), ast.Dict) and \
+                        isinstance(tgt, ast.Tuple) and len(tgt.elts) == 2 and all(isinstance(x, ast.Name) for x in tgt.elts) and \
+                        isinstance(dc.key, ast.Name) and dc.key.id == tgt.elts[0].id and isinstance(dc.value, ast.Name) and dc.value.id == tgt.elts[1].id:
+                    # {path: strategy for path, strategy in TABLE.items() [if strategy is not None]}: the literal table, filtered
+                    lit = literal(it.func.value)
+                    conds = dc.generators[0].ifs
+                    drop_none = len(conds) == 1 and isinstance(conds[0], ast.Compare) and isinstance(conds[0].ops[0], (ast.IsNot, ast.NotEq)) and \
+                        dotted(conds[0].left) == tgt.elts[1].id and const_val(conds[0].comparators[0]) is None
+                    truthy = len(conds) == 1 and isinstance(conds[0], ast.Name) and conds[0].id == tgt.elts[1].id
+                    if conds and not (drop_none or truthy):
+                        raise AnalysisError('strategy table is updated from a comprehension the analyser cannot bound: %s' % ast.unparse(dc)[:80])
+                    for kk, vv in zip(lit.keys, lit.values):
+                        if isinstance(const_val(kk), str) and isinstance(vv, ast.Constant):
+                            if conds and (vv.value is None or (truthy and not vv.value)):
+                                continue
+                            table.setdefault(const_val(kk), set()).add(vv.value)
                 else:
                     raise AnalysisError('strategy table is updated from a comprehension the analyser cannot bound: %s' % ast.unparse(dc)[:80])
     if len(table) < 10:
